@@ -96,6 +96,26 @@ def run(ctx, rep):
     rep.extra['feature_sets'] = fsets
 
 
+def path_keyed(prog, region, sortcall):
+    """The sort orders by a file-system path: its comparator / key closure (found by the closure type in the call's argument
+    types) compares `PathBuf`/`Path` values, or the elements themselves are ordered and start with a path."""
+    tys = ' '.join(sortcall.get('arg_tys') or [])
+    m = re.search(r'\{closure@([^:}]+):(\d+):', tys)
+    if not m:
+        # plain sort(): element type must begin with a path
+        return re.search(r'\[\((?:std::path::)?PathBuf,', tys) is not None and re.search(r'::sort(_unstable)?$', sortcall['callee']) is not None
+    line = int(m.group(2))
+    bodies = [prog.bodies[k] for k in prog.bodies if prog.bodies[k]['kind'] == 'closure' and prog.bodies[k]['line'] == line and prog.bodies[k]['file'].endswith(m.group(1).split('/')[-1])]
+    for cb in bodies:
+        for c in cb['calls']:
+            if re.search(r'(Ord|PartialOrd)>?::(cmp|partial_cmp)$', c['callee']) and any(re.search(r'\bPath(Buf)?\b', t) for t in c.get('arg_tys', [])):
+                return True
+        ret = cb['locals'].get('_0', '')
+        if re.search(r'\bPath(Buf)?\b', ret):
+            return True
+    return False
+
+
 def sorted_before_use(prog, b, c):
     """The Vec produced by this consumer (its call destination) is handed to a slice sort before anything else reads it:
     some `sort*` call on (a reborrow of) the destination dominates every other call that receives it."""
@@ -248,6 +268,10 @@ def d45(ctx, rep, prog):
                     cb = prog.bodies[ck]
                     sorts += [c for c in cb['calls'] if re.search(r'slice::<impl \[T\]>::sort(_unstable)?(_by|_by_key|_by_cached_key)?$', c['callee'])
                               and 'ParsedData' in ' '.join(c.get('arg_tys') or []) and prog.dominates(cb, c['bb'], cc['bb'])]
+            if sorts and not any(path_keyed(prog, kids, x) for x in sorts):
+                rep.fail('D4', 'collector:merge-order-key', f"the buffered per-file results are sorted (`{sorts[0]['snippet'][:60]}`) by a key that is not the source path: fields of ParsedData such as the output file name or the crate name are equal for many files (all of them in single-file mode), so the stable sort keeps the channel arrival order", {'file': sorts[0]['file'], 'line': sorts[0]['line']})
+            elif sorts:
+                rep.ok('D4', 'collector:merge-order-key', 'the buffer is ordered by the source path of each file (unique per file)', {'file': sorts[0]['file'], 'line': sorts[0]['line']})
             rep.check(bool(sorts), 'D4', 'collector:merge-order', f"per-file results are buffered and sorted (`{sorts[0]['snippet'][:60] if sorts else ''}`) before the fold", 'the collector buffers the per-file results but folds them without sorting the buffer first: the merge order is still the channel arrival order, and the later stable sort by Rust name keeps it for same-named items', site)
         elif re.search(r'btree', ty):
             rep.ok('D4', 'collector:merge-order', f'fold iterates an ordered collection (`{ty[:60]}`)', site)
@@ -255,7 +279,7 @@ def d45(ctx, rep, prog):
             raise core.Incomplete(f'collector: unrecognised source of the fold loop: {ty[:80]}')
     # D5 sorts
     pd = ctx.item('struct', 'ParsedData')
-    ra = ctx.fn('reconcile_aliases', file='reconcile.rs')
+    ra = ctx.fnx('reconcile_aliases', file='reconcile.rs')
     aa = ctx.fn('ParsedData::add_assign', file='parser.rs')
     appended = [f['name'] for f in pd['fields'] if f['ty'].startswith('Vec<') and any(c.get('f') in ('append', 'extend', 'extend_from_slice') and vt.show(c.get('recv')).endswith('self.' + f['name']) for c in aa['calls'])]
     rep.floor('D5', 'vectors appended by AddAssign', len(appended), 4)
@@ -265,7 +289,12 @@ def d45(ctx, rep, prog):
             rep.ok('D5', f'sorted:{v}', 'errors are only logged, never written to an output file', site)
             continue
         sorts = [c for c in ra['calls'] if c.get('f') in ('sort', 'sort_by', 'sort_by_key', 'sort_unstable', 'sort_unstable_by', 'sort_unstable_by_key', 'sort_by_cached_key') and vt.show(c.get('recv')).endswith('.' + v)]
-        conds = [fr for c in sorts for fr in c['guard'] if fr.get('k') in ('if', 'arm')]
+        def cf(c):
+            return [(vt.ckey(fr.get('c')), bool(fr.get('neg'))) for fr in c['guard'] if fr.get('k') == 'if'] + [('arm', str(fr.get('variants'))) for fr in c['guard'] if fr.get('k') == 'arm']
+        uncond = [c for c in sorts if not cf(c)]
+        # two sorts on complementary branches of one test (e.g. an early `continue` path and the main path) cover every path
+        compl = any(len(cf(a)) == 1 and len(cf(b2)) == 1 and cf(a)[0][0] == cf(b2)[0][0] and cf(a)[0][1] != cf(b2)[0][1] for a in sorts for b2 in sorts)
+        conds = [] if (uncond or compl) else [fr for c in sorts for fr in c['guard'] if fr.get('k') in ('if', 'arm')]
         rep.check(bool(sorts) and not conds, 'D5', f'sorted:{v}', 'sorted after merge', f"`{v}` are appended in file-arrival order by the collector and never sorted before generation: their order in the output (and the input order of topsort) depends on which walker thread finished first", site)
     # reconcile_aliases dominates write_generated
     gt = [k for k in prog.find('generate_types', crate='typeshare#bin') if prog.bodies[k]['kind'] == 'fn']
